@@ -98,12 +98,12 @@ def run_impl(case):
     from clikit.args.default_args_parser import DefaultArgsParser
     shared = DefaultArgsParser()
     results, fresh, mutated = [], [], []
-    fmts = {}
+    fmt = args = None
     for rq in case["requests"]:
-        key = repr(rq["spec"])
-        if key not in fmts:
-            fmts[key] = pc.build_format(rq["spec"])
-        fmt = fmts[key]
+        # every request brings its own format OBJECT, and the previous one is gone by then (formats assembled per
+        # request are the usual case): nothing the parser remembers about an earlier format object may matter
+        fmt = args = cmd = None
+        fmt = pc.build_format(rq["spec"])
         argv = ["prog"] + list(rq["tokens"])
         argv_before = list(argv)
         raw = ArgvArgs(argv)
